@@ -5,3 +5,8 @@ claim("C11", "model_checking", "exhaustive choice-tree enumeration of encoder in
       "Every encoder input in the stated alphabet (all head-size boundary windows, all string length classes, every permutation of every <=4-key subset of a mixed key pool, every duplicate, every call sequence up to depth 3/4) is executed on the real cbor.Encoder and compared byte-for-byte with refcbor; complete within the alphabet, small-scope beyond it.",
       "Trusted: Go toolchain/stdlib, refcbor (independent encoder/decoder written from RFC 8949). Values outside the enumerated windows are assumed to behave like in-window values of the same head-size class.",
       "DESIGN.md section 6/C11")
+
+claim("C12", "model_checking", "exhaustive choice-tree enumeration of decoder inputs (initial byte x argument class x truncation x content x method x reader chunking) in watchdog-supervised workers; differential against an independent RFC 8949 head parser",
+      "Every decode call on every input of the stated alphabet is executed on the real cbor.Decoder and must agree with refcbor on accept/reject, value and bytes consumed; complete within alphabet and chunking-deviation bound 1.",
+      "Trusted: Go toolchain/stdlib, refcbor. Small-scope: argument values between the enumerated boundaries are represented by their width class.",
+      "DESIGN.md section 6/C12")
